@@ -47,6 +47,17 @@
                             of slots the session has not yet yielded.
      (C09_iter_exact_len holds by unfolding cursor_len; the content is in
       C09_iter_run_spec's `snd r`.)
+     From an arbitrary cursor (lo,hi) (any partly consumed iterator):
+       C09_iter_continue_from    n steps yield seq lo (min n (hi-lo)), reach
+                            cursor (lo + min n (hi-lo), hi), world unchanged.
+       C09_iter_count_remaining  "count() agrees": cursor_len of that cursor is
+                            (hi-lo) - min n (hi-lo).
+       C09_iter_debug_rest  the entries still to come after n steps from iter()
+                            are skipn n of the content.
+   * "a cloned iterator continues identically to its original":
+       C09_iter_clone_continues_seq  original and clone (the same cursor value),
+                            run one after the other, give equal results; the
+                            world is unchanged.
    * "after the end they keep returning None":
        C09_iter_fused       next() on the exhausted cursor (len,len) returns None
                             and the same cursor, so every later call does too.
@@ -65,17 +76,19 @@
      keys/values/values_mut/iter_mut/Set::iter project slot i as the crate
      does is checked by the harness (Exec.iter_session kinds 0-4), not proved.
    * count(): not a separate model function; it is cursor_len of the current
-     cursor (same number as len()).
-   * "a cloned iterator continues identically": a cursor is a plain value and
-     C09_iter_run_exact shows a session neither changes the world nor depends on
-     anything but the cursor and the container, so running the copy gives the
-     same result; there is no separate theorem about Clone for Iter (the harness
-     compares Exec.rest_slots of the clone).
+     cursor (same number as len()); its value at every step is now
+     C09_iter_count_remaining.  That the crate's count() consumes the iterator
+     and returns that number is left to the harness.
+   * "a cloned iterator continues identically": NOW a theorem,
+     C09_iter_clone_continues_seq.  What remains an assumption of the model:
+     Clone for Iter/Keys/Values/SetIter copies the cursor (lo,hi) and nothing else (the
+     harness compares Exec.rest_slots of the clone).  IterMut / ValuesMut are
+     not Clone in the crate.
    * "every reachable container state" enters as the hypothesis WF (self w)
      (reachable states are WF: ExecSafe.step_safe, C02/C04).
    ======================================================================== *)
 Require Import Model.Base Model.Slots Model.MapOps Model.Exec.
-Require Import Proofs.Hoare Proofs.Inv Proofs.Spec Proofs.IterSpec Proofs.Legacy.
+Require Import Proofs.Hoare Proofs.Inv Proofs.Spec Proofs.IterSpec Proofs.Legacy Proofs.Gaps.
 
 Theorem C09_iter_run_spec :
   forall (K V T : Type) (n : nat) (w : world K V T),
@@ -149,6 +162,66 @@ Proof. exact (fun K V T => @writes_visible K V T). Qed.
 Print Assumptions C09_writes_visible.
 
 (* ---------------------------------------------------------------------- *)
+(* sessions from an ARBITRARY cursor (a partly consumed iterator, or its     *)
+(* clone), count() of the remainder, what remains (Proofs/Gaps.v)            *)
+(* ---------------------------------------------------------------------- *)
+
+(* n steps from cursor (lo,hi): yields slots lo, lo+1, ... (min n (hi-lo) of
+   them), ends at cursor (lo + min n (hi-lo), hi); the whole world is unchanged *)
+Theorem C09_iter_continue_from :
+  forall (K V T : Type) (n lo hi : nat) (w : world K V T),
+    WF (self w) -> lo <= hi -> hi <= len (self w) ->
+    wp (iter_run n (lo, hi))
+       (fun (r : list nat * cursor) (w' : world K V T) =>
+          w' = w /\
+          fst r = seq lo (Nat.min n (hi - lo)) /\
+          snd r = (lo + Nat.min n (hi - lo), hi))
+       (fun _ : world K V T => False) w.
+Proof. exact (fun K V T => @iter_continue_from K V T). Qed.
+Print Assumptions C09_iter_continue_from.
+
+(* count() / len() / size_hint of the cursor reached after n steps from (lo,hi):
+   exactly the hi - lo items that were to come minus the min n (hi-lo) yielded *)
+Theorem C09_iter_count_remaining :
+  forall (lo hi n : nat),
+    cursor_len (lo + Nat.min n (hi - lo), hi) = (hi - lo) - Nat.min n (hi - lo).
+Proof. exact iter_count_remaining. Qed.
+Print Assumptions C09_iter_count_remaining.
+
+(* "a cloned iterator continues identically to its original": an iterator IS its
+   cursor value (lo,hi), so its clone is the same value; running the original
+   and then the clone, each for n steps from that cursor, gives equal results
+   (same slots, same final cursor) and leaves the world unchanged *)
+Theorem C09_iter_clone_continues_seq :
+  forall (K V T : Type) (n lo hi : nat) (w : world K V T),
+    WF (self w) -> lo <= hi -> hi <= len (self w) ->
+    wp (r1 <- iter_run n (lo, hi) ;; r2 <- iter_run n (lo, hi) ;; ret (r1, r2))
+       (fun (r : (list nat * cursor) * (list nat * cursor)) (w' : world K V T) =>
+          w' = w /\
+          fst r = snd r /\
+          fst (fst r) = seq lo (Nat.min n (hi - lo)))
+       (fun _ : world K V T => False) w.
+Proof. exact (fun K V T => @iter_clone_continues_seq K V T). Qed.
+Print Assumptions C09_iter_clone_continues_seq.
+
+(* what is still to come after n steps from iter(): the entries of the cursor's
+   range (range_list m (lo,hi) = the entries in slots [lo,hi), Model/Exec.v;
+   it is what Debug for the iterator prints, C19) are exactly the content minus
+   its first n entries: "every stored entry exactly once", seen from the rest *)
+Theorem C09_iter_debug_rest :
+  forall (V T : Type) (n : nat) (w : world key V T),
+    WF (self w) ->
+    wp (c <- iter ;; iter_run n c)
+       (fun (r : list nat * cursor) (w' : world key V T) =>
+          self w' = self w /\
+          snd r = (Nat.min n (len (self w)), len (self w)) /\
+          range_list (self w') (snd r) = skipn (Nat.min n (len (self w))) (Spec.elems (self w)) /\
+          range_list (self w') (snd r) = skipn n (Spec.elems (self w)))
+       (fun _ : world key V T => False) w.
+Proof. exact (fun V T => @iter_debug_rest V T). Qed.
+Print Assumptions C09_iter_debug_rest.
+
+(* ---------------------------------------------------------------------- *)
 (* non-vacuity                                                              *)
 (* ---------------------------------------------------------------------- *)
 
@@ -171,3 +244,17 @@ Example C09_example_write :
   Spec.elems (set_slot_m m3 1 (Some (k_ 3 6, v_ 40 80)))
   = [(k_ 1 5, v_ 2 7); (k_ 3 6, v_ 40 80); (k_ 5 7, v_ 6 9)].
 Proof. reflexivity. Qed.
+
+(* a partly consumed iterator over m3 at cursor (1,3) and its clone: both yield
+   slots 1,2 and end at (3,3); count() of (1,3) is 2, after one more step 1 *)
+Example C09_example_clone :
+  (r1 <- iter_run 5 (1, 3) ;; r2 <- iter_run 5 (1, 3) ;; ret (r1, r2)) (w_of m3)
+    = Ok (([1; 2], (3, 3)), ([1; 2], (3, 3))) (w_of m3) /\
+  cursor_len (1, 3) = 2 /\ cursor_len (1 + Nat.min 1 (3 - 1), 3) = 1.
+Proof. vm_compute. repeat split; reflexivity. Qed.
+
+(* after one step the range still to come is the content minus its first entry *)
+Example C09_example_rest :
+  range_list m3 (1, 3) = [(k_ 3 6, v_ 4 8); (k_ 5 7, v_ 6 9)] /\
+  skipn 1 (Spec.elems m3) = [(k_ 3 6, v_ 4 8); (k_ 5 7, v_ 6 9)].
+Proof. split; vm_compute; reflexivity. Qed.
